@@ -532,7 +532,7 @@ func modeRaceload(tier string, args []string) {
 	// the scripted implementation, over in-process pipes
 	ro := &raceOps{files: map[string]*rcFile{}, async: true, pending: map[*go9p.SrvReq]int{}}
 	ro.Dotu = true
-	ro.Msize = 8192
+	ro.Msize = 4096 // smaller than what the clients propose: the server lowers msize in every session
 	ro.Id = "scripted-race"
 	ro.Log = go9p.NewLogger(64)
 	if !ro.Start(ro) {
